@@ -24,6 +24,9 @@ pub enum Outcome {
     Other(String),
     /// The receive did not complete within the poll budget (transport has nothing more).
     Pending,
+    /// The receive was abandoned and control handed back to the driver (which may do something
+    /// else with the connection, e.g. `join` and `split` it, before receiving again).
+    Abandoned,
 }
 
 /// What the reference says about one frame.
@@ -179,7 +182,7 @@ pub fn reference(target: Target, frame: &[u8]) -> Expect {
 /// future is dropped and re-created. Evaluates to an `Outcome`.
 #[macro_export]
 macro_rules! drive_recv {
-    ($conn:expr, $method:ident, [$($ty:ty),*], $classify:expr, $cancel:expr, $polls:expr, $max:expr) => {{
+    ($conn:expr, $method:ident, [$($ty:ty),*], $classify:expr, $cancel:expr, $polls:expr, $max:expr, $yield_on_cancel:expr) => {{
         'outer: loop {
             let conn = &mut *$conn;
             let fut = conn.$method::<$($ty),*>();
@@ -193,6 +196,9 @@ macro_rules! drive_recv {
                             break 'outer $crate::rx::Outcome::Pending;
                         }
                         if ($cancel)(*$polls) {
+                            if $yield_on_cancel {
+                                break 'outer $crate::rx::Outcome::Abandoned;
+                            }
                             continue 'outer;
                         }
                     }
@@ -210,6 +216,7 @@ pub fn receive_one<R: ReadHalf>(
     polls: &mut usize,
     max_polls: usize,
     cancel: &mut dyn FnMut(usize) -> bool,
+    yield_on_cancel: bool,
 ) -> Outcome {
     match target {
         Target::CallEnum => drive_recv!(
@@ -219,7 +226,8 @@ pub fn receive_one<R: ReadHalf>(
             classify_call,
             cancel,
             polls,
-            max_polls
+            max_polls,
+            yield_on_cancel
         ),
         Target::CallStrict => drive_recv!(
             conn,
@@ -228,7 +236,8 @@ pub fn receive_one<R: ReadHalf>(
             classify_call,
             cancel,
             polls,
-            max_polls
+            max_polls,
+            yield_on_cancel
         ),
         Target::CallService => drive_recv!(
             conn,
@@ -237,7 +246,8 @@ pub fn receive_one<R: ReadHalf>(
             classify_call,
             cancel,
             polls,
-            max_polls
+            max_polls,
+            yield_on_cancel
         ),
         Target::ReplyUnit => drive_recv!(
             conn,
@@ -246,7 +256,8 @@ pub fn receive_one<R: ReadHalf>(
             classify_reply,
             cancel,
             polls,
-            max_polls
+            max_polls,
+            yield_on_cancel
         ),
         Target::ReplyOpt => drive_recv!(
             conn,
@@ -255,7 +266,8 @@ pub fn receive_one<R: ReadHalf>(
             classify_reply,
             cancel,
             polls,
-            max_polls
+            max_polls,
+            yield_on_cancel
         ),
         Target::ReplyValue => drive_recv!(
             conn,
@@ -264,7 +276,8 @@ pub fn receive_one<R: ReadHalf>(
             classify_reply,
             cancel,
             polls,
-            max_polls
+            max_polls,
+            yield_on_cancel
         ),
         Target::ReplyStrict => drive_recv!(
             conn,
@@ -273,7 +286,8 @@ pub fn receive_one<R: ReadHalf>(
             classify_reply,
             cancel,
             polls,
-            max_polls
+            max_polls,
+            yield_on_cancel
         ),
         Target::ReplyBorrowed => drive_recv!(
             conn,
@@ -282,7 +296,8 @@ pub fn receive_one<R: ReadHalf>(
             classify_reply,
             cancel,
             polls,
-            max_polls
+            max_polls,
+            yield_on_cancel
         ),
     }
 }
@@ -315,6 +330,11 @@ pub struct RxCase {
     /// Abandon the receive future after the n-th `Pending` poll, for every n listed (1-based,
     /// counted over the whole case).
     pub cancel: Vec<usize>,
+    /// 0 = the read half is used on its own throughout. k > 0: after every abandoned receive, and
+    /// before every k-th receive, the halves are put together with `Connection::join` and taken
+    /// apart again with `split` (which must not disturb what the read half has buffered).
+    #[serde(default)]
+    pub rejoin: u8,
 }
 
 #[derive(Debug, Default)]
@@ -324,6 +344,7 @@ pub struct RxRun {
     pub cancelled_mid_frame: bool,
     pub reads: u64,
     pub max_buf_len: usize,
+    pub rejoins: usize,
 }
 
 impl RxCase {
@@ -352,7 +373,7 @@ impl RxCase {
         let (sock, handle) = SimSocket::with_script(self.script());
         let (read, _write) = sock.split();
         // `Connection::new` is the only public constructor; build through it and split.
-        let (mut rc, _wc) = zlink_core::Connection::new(SimSocket {
+        let (mut rc, mut wc) = zlink_core::Connection::new(SimSocket {
             read,
             write: _write,
         })
@@ -367,7 +388,17 @@ impl RxCase {
         for f in &self.frames {
             boundaries.push(boundaries.last().unwrap() + f.0.len() as u64 + 1);
         }
-        for _ in 0..limit {
+        let mut results = 0usize;
+        let mut rounds = 0usize;
+        let mut abandoned = false;
+        while results < limit && rounds < limit + self.cancel.len() + 2 {
+            rounds += 1;
+            if self.rejoin > 0 && (abandoned || results % self.rejoin as usize == 0) {
+                let (r, w) = zlink_core::Connection::<SimSocket>::join(rc, wc).split();
+                rc = r;
+                wc = w;
+                run.rejoins += 1;
+            }
             let h = handle.clone();
             let cancel_list = &self.cancel;
             let mut cancellations = 0usize;
@@ -384,9 +415,14 @@ impl RxCase {
                     false
                 }
             };
-            let o = receive_one(&mut rc, self.target, &mut polls, max_polls, &mut cancel);
+            let o = receive_one(&mut rc, self.target, &mut polls, max_polls, &mut cancel, self.rejoin > 0);
             run.cancellations += cancellations;
             run.cancelled_mid_frame |= mid;
+            abandoned = o == Outcome::Abandoned;
+            if abandoned {
+                continue;
+            }
+            results += 1;
             let stop = matches!(o, Outcome::Eof | Outcome::Other(_) | Outcome::Pending);
             run.outcomes.push(o);
             if stop {
